@@ -1479,7 +1479,8 @@ def _tokval(draw, sshg: bool, lead=('/k/', '~/.ssh/', '/'), rare_bad=False):
     return val
 
 
-def _value(draw, name: str, sshg: bool, canon_changes: bool) -> List[str]:
+def _value(draw, name: str, sshg: bool, canon_changes: bool,
+           fa_mode: Optional[bool] = None) -> List[str]:
     kind = CLIENT_KINDS[name]
     s = st.sampled_from
     none_ok = not sshg
@@ -1513,7 +1514,10 @@ def _value(draw, name: str, sshg: bool, canon_changes: bool) -> List[str]:
         return [draw(s(BOOLS if not (sshg and name == 'Compression') else
                        ['yes', 'no', 'Yes', 'NO']))]
     if kind == 'boolstr':
-        if draw(st.booleans()):
+        # ssh keeps the flag and the socket path of ForwardAgent in two
+        # fields (first value wins per field) and -G prints the path if
+        # there is one: comparable only when a file does not mix the forms
+        if draw(st.booleans()) if fa_mode is None else fa_mode:
             return [draw(s(BOOLS))]
         return [strip_n(_tokval(draw, sshg, ('/run/', '/')))]
     if name == 'Port':
@@ -1612,6 +1616,7 @@ def client_case(draw, tier: str, sshg: bool):
     focus = draw(st.lists(st.sampled_from(focus_pool), min_size=2,
                           max_size=4, unique=True))
     use_final = draw(st.integers(0, 3)) == 0
+    fa_mode = draw(st.booleans()) if sshg else None
 
     if sshg and use_final:
         # see ASSUMPTIONS: no Hostname directive together with Match final
@@ -1632,7 +1637,7 @@ def client_case(draw, tier: str, sshg: bool):
 
             return ['nosplit', name, raw, style]
 
-        args = _value(draw, name, sshg, canon_changes)
+        args = _value(draw, name, sshg, canon_changes, fa_mode)
         style = _style(draw, len(args))
 
         if name == 'ProxyJump':
